@@ -105,7 +105,8 @@ CLAIMS["C16"] = dict(
     text="Static dimensional analysis of the floating-point API: in every function that derives a scale from a precision, and in ClipperD, each length "
          "(paths, rectangles, delta, arc tolerance) is S^1 at every integer-API argument and S^0 at every return; ClipperD's scale_/invScale_ wiring "
          "is as documented; double->int64 coordinate conversion happens only through std::round; no wrapper hands its own double argument back "
-         "unrounded (one known finding, D17); the D output builders equal their 64-bit siblings "
+         "unrounded (one known finding, D17); every precision parameter is used for more than validation and no ClipperD is default-constructed "
+         "where a precision was given; the D output builders equal their 64-bit siblings "
          "modulo de-scaling (sibling identity, engine E6).",
     note="Bit-exact equality of results (floating-point evaluation order) and node-for-node tree shape beyond builder identity are NOT decided.",
     technique="static analysis: unit/dimension inference over the AST + sibling-identity alignment",
@@ -140,7 +141,8 @@ CLAIMS["C09"] = dict(
          "boxes disjoint -> skip', appending pieces path by path in the order found; the crossing dispatch of ExecuteInternal starts a new piece "
          "exactly where the polyline enters the rectangle (all 24 location pairs; the pass-through case takes its first crossing from the far "
          "end of the segment); nothing written while clipping one polyline is read while clipping the next; the cut itself, as a real-number formula: GetSegmentIntersectPt's "
-         "point lies on both lines and GetSegmentIntersection's touching cases store an end point that lies on both lines (engine E14).",
+         "point lies on both lines and GetSegmentIntersection's touching cases store an end point that lies on both lines (engine E14) and answer "
+         "'touching' exactly when it lies strictly between the other segment's ends, whichever way the side runs (48 cells).",
     note="Partial: which rectangle edge GetIntersection tries, rounding, GetNextLocation's scan, the vertex order inside a piece and every tolerance of "
          "the statement (1.5 / 1 / 2 units) are NOT decided - the numeric content of C09 is out of reach of static analysis here.",
     technique="static analysis: abstract interpretation over orderings and the Location enum + loop-carried-state dataflow",
@@ -153,7 +155,8 @@ CLAIMS["C13"] = dict(
          "y' (z ignored) so duplicate / closing vertices are recognised; the closing-vertex test compares with the first vertex of the same path; twin "
          "x/y locals read mirrored coordinates (transposition); no signed 64-bit products, no single-precision floating point (integer scaling); "
          "the cross-product predicates and the segment intersection are the textbook polynomials (engine E14), hence equivariant under "
-         "translation, transposition and scaling as real-number formulas; the boolean convenience functions never hand a path parameter back as the result.",
+         "translation, transposition and scaling as real-number formulas; the boolean convenience functions never hand a path parameter back as the result; every precision parameter "
+         "reaches the scale / the ClipperD it is meant for (translation and integer scaling of decimal data).",
     note="Permutation/rotation invariance of the sweep (IsValidAelOrder tie-breaking) and the algebraic identities are NOT decided.",
     technique="static analysis: table symmetries on the abstractly interpreted decision function + comparator axioms by exhaustive interpretation",
     design="§3 E3, §4 C13", engine="E3")
@@ -179,8 +182,8 @@ CLAIMS["C18"] = dict(
          "vertex on all reaching definitions; twin x/y locals (incl. the HI_PRECISION GetSegmentIntersectPt) read mirrored coordinates; "
          "engine E14 (identities of polynomial normal forms): the two compared products of CrossProductSign / IsCollinear / ProductsAreEqual differ by "
          "exactly the cross product, on both code paths (portable: magnitudes and signs of the same factors), the 128-bit tails return sign(ab-cd) / "
-         "(ab==cd) on every ordering and no 128-bit value is narrowed; GetSegmentIntersectPt's result lies on both lines and 'parallel' is the "
-         "vanishing of the direction cross product; CrossProduct, DotProduct, DistanceSqr, PerpendicDistFromLineSqrd, GetClosestPointOnSegment equal "
+         "(ab==cd) on every ordering and no 128-bit value is narrowed; GetSegmentIntersectPt's result lies on both lines and 'parallel' is answered by an exact test of the "
+         "direction cross product against zero (no tolerance); CrossProduct, DotProduct, DistanceSqr, PerpendicDistFromLineSqrd, GetClosestPointOnSegment equal "
          "their defining formulas; Multiply's returned {lo, hi} satisfies hi 2^64 + lo == a b identically (bit slices: lo_k(x) = x - 2^k hi_k(x)).",
     note="Floating-point rounding of the formulas, the clamping branches, PointInPolygon's numeric content and Area's loop are NOT decided.",
     technique="static analysis: type rule on the AST + abstract interpretation over sign/ordering cells + interval analysis",
@@ -202,7 +205,8 @@ CLAIMS["C04"] = dict(
          "the same calls with the same arguments, and every branch on using_polytree_ writes only ownership fields (owner, splits, recursive_split, "
          "polypath, OutPt::outrec), callees included (effect confinement; one reasoned exception). Path1InsidePath2's vertex vote (step and verdict for every count: a lead of two is decisive, only an equivocal count uses the "
          "bounding-box midpoint); OutRec::splits lists only grow (never overwritten); Rect::Contains, the owner search's pre-filter, is closed "
-         "inclusion on every ordering; the builders' index loops over outrec_list_ re-read its size (rings split off while building are emitted in both modes).",
+         "inclusion on every ordering; the builders' index loops over outrec_list_ re-read its size (rings split off while building are emitted in both modes); whatever GetPrevHotEdge returns, the ring's tentative owner is "
+         "assigned (SetOwner, or nullptr) on every path on which tree output is possible.",
     note="That the owners are right (containment, depth alternation, area equality) is NOT decided.",
     technique="static analysis: effect confinement of option-controlled regions + pipeline identity",
     design="§3 E10, §4 C04", engine="E10")
@@ -228,7 +232,7 @@ CLAIMS["C20"] = dict(
     text="Static decision of necessary clauses: TrimCollinear, SimplifyPath, RamerDouglasPeucker and StripNearEqual append only elements of the "
          "input (never a computed vertex), inside loops through forward-only cursors; keep/remove flags are monotone; StripDuplicates only erases; "
          "TrimCollinear's corner test is made against the last kept vertex; SimplifyPath's pinned end distances are never overwritten; every "
-         "distance/epsilon comparison of SimplifyPath and RDP draws the line at 'removable iff distance <= epsilon'; GetBounds' min/max update table; every argument bound to an epsilon / squared-epsilon parameter has that degree; Ellipse and TranslatePath "
+         "distance/epsilon comparison of SimplifyPath and RDP draws the line at 'removable iff distance <= epsilon'; GetBounds' min/max update table and sentinels (a maximum starts at lowest(), not at the smallest positive value); every argument bound to an epsilon / squared-epsilon parameter has that degree; Ellipse and TranslatePath "
          "satisfy their defining formulas; "
          "PerpendicDistFromLineSqrd, DistanceSqr and IsCollinear are their defining polynomials (engine E14). "
          "The one flag-clearing site (RDP) is a genuine defect recorded as a known finding (D11).",
